@@ -434,7 +434,12 @@ public:
                                    unsigned int prec)
     {
         const Coeff c(Series::find_cf(s, var, 0));
-        return Series::acos(c) - series_asin(s - c, var, prec);
+        // acos(s) = pi/2 - asin(s) = acos(c) + asin(c) - asin(s)
+        if (c == 0) {
+            return Series::acos(c) - series_asin(s, var, prec);
+        } else {
+            return Series::acos(c) + Series::asin(c) - series_asin(s, var, prec);
+        }
     }
 
     static inline Poly _series_cos(const Poly &s, unsigned int prec)
